@@ -197,6 +197,10 @@ def create_padding(cmd: NpuStripe, primary_op: Operation, npu_op: NpuBlockOperat
             channels=cmd.ps.ifm_shapes[0].depth,
             dtype=cmd.ifm_tensor.dtype,
         )
+        # The tiles pad the IFM by one row and one column of edge values: that is the area the operation reads
+        npu_op.ifm.shape = NpuShape3D(
+            height=npu_op.ifm.shape.height + 1, width=npu_op.ifm.shape.width + 1, depth=npu_op.ifm.shape.depth
+        )
         top, left, bottom, right = 0, 0, 0, 0
 
     return NpuPadding(top=top, left=left, bottom=bottom, right=right)
